@@ -1,4 +1,12 @@
+pub mod c07;
+pub mod c08;
+pub mod c16;
+pub mod c17;
+pub mod c19;
+pub mod snapmodel;
 pub mod c34;
+pub mod logutil;
+pub mod simchecks;
 
 /// Child-process entry for crash-injection checks (`dverif __child <module> <spec-file>`).
 /// The child executes the spec and may abort() at a generated crash point; the parent judges
